@@ -338,6 +338,22 @@ def run_c12(facts, out):
         out.add('SS-C12', TIMING, 'four-adds', '%s:%d' % (b.file, b.line), len(adds) == 4,
                 '' if len(adds) == 4 else '%d add_control_point(time, _, timing_change) calls instead of 4' % len(adds),
                 ordinal=False)
+        # every line yields a difficulty, an effect and a sample point (with defaults for omitted fields);
+        # only the timing point depends on the line being a timing change
+        cond_adds = []
+        for n, anc in adds:
+            conds = [a for a in anc if a.get('k') in ('if', 'match') and not a.get('src', '').startswith('TryDesugar')]
+            if not conds:
+                continue
+            if len(conds) == 1 and conds[0].get('k') == 'if' and L('timing_change').m(ctx, conds[0]['c']):
+                continue
+            cond_adds.append(n)
+        okc = len(adds) == 4 and not cond_adds and sum(
+            1 for n, anc in adds if any(a.get('k') == 'if' for a in anc)) == 1
+        out.add('SS-C12', TIMING, 'adds-unconditional', '%s:%d' % (b.file, cond_adds[0].get('ln', b.line) if cond_adds else b.line), okc,
+                '' if okc else ('a control point is queued only under a condition other than `timing_change` for the timing '
+                                'point: a line that omits optional fields must still yield difficulty, effect and sample points '
+                                'with the defaults'), ordinal=False)
     # flush: all four pending kinds, and the conversion flushes before moving control_points out
     fl = TPD + 'TimingPointsState::flush_pending_points'
     hfn = facts.hir.get(fl)
